@@ -5,6 +5,7 @@
      F                      Flush                                                obs f
      D                      DropNotFlushed (back to the last Flush)              obs d<number of events lost>
      RI fc vc               restart: NEW vecfc.Index (cache sizes fc / vc) Reset over the same DB  obs r<number of events lost>
+     RS fresh w_0..          Reset of the EXISTING Index object: same DB (fresh=0) or a new empty DB (1), new weights  obs s<lost>
      DB k                   bytes stored in the persistent DB for the last k flushed events     obs b<id>=<S>:<s>:<b>/...
      Q k ord                ForklessCause on all pairs of the last k added events, twice
                                                                                   obs q<bits>/<bits>
@@ -51,7 +52,8 @@ let eval inp obs =
      events with parents, are inside the theorems' domain); from then on implementation vs model only. *)
   let declared_mal = mal and mal = ref false and hyp_bad = ref [] in
   let nvn = nat_of_int nv in
-  let q = quorum_of ws in
+  let ws = ref ws in
+  let q = ref (quorum_of !ws) in
   (* the index is the PERSISTED engine model (VecPersist.pidx: byte tables, BranchesInfo record written by
      Flush); [s] caches its view *)
   (* round 4: the COMPOSED engine (VecPersist.ceng): byte tables, BranchesInfo record, HB/LA write-through
@@ -106,6 +108,15 @@ let eval inp obs =
       ce := ce_restart (nat_of_tok fc) (mkc vc) (mkc vc) !ce; s := ce_view !ce;
       order := !orderF; specE := !specEF; table := None;
       "r" ^ string_of_int lost
+    | "RS" :: fresh :: w2 ->
+      let lost = (if fresh = "1" then List.length !order else List.length !order - List.length !orderF) in
+      ws := List.map n_of_tok w2; q := quorum_of !ws;
+      if fresh = "1" then begin
+        ce := ce_reset_fresh nvn !ce; order := []; orderF := []; specE := []; specEF := [] end
+      else begin
+        ce := ce_reset_same !ce; order := !orderF; specE := !specEF end;
+      s := ce_view !ce; table := None;
+      "s" ^ string_of_int lost
     | ["DB"; k] ->
       let r = lastn (int_of_string k) (List.rev !orderF) in
       let g tbl id = (match alookup id tbl with Some b -> hex_of_bytes b | None -> "~") in
@@ -117,12 +128,12 @@ let eval inp obs =
       let pairs = List.concat_map (fun a -> List.map (fun b -> (a, b)) r) r in
       let run () =
         let tbl = Hashtbl.create 64 in
-        List.iter (fun (a, b) -> let (res, ce') = ce_query ws q !ce a b in
+        List.iter (fun (a, b) -> let (res, ce') = ce_query !ws !q !ce a b in
                     ce := ce'; Hashtbl.replace tbl (a, b) res)
           (if ord = "1" then List.rev pairs else pairs);
         bits (List.map (fun p -> Hashtbl.find tbl p) pairs) in
       let b1 = run () in let b2 = run () in
-      let sp = bits (List.concat_map (fun a -> fc_spec_row ws q nvn !specE (get_table ()) a r) r) in
+      let sp = bits (List.concat_map (fun a -> fc_spec_row !ws !q nvn !specE (get_table ()) a r) r) in
       if String.contains sp '1' then fctrue := true;
       if not !mal then begin
         if iobs <> "q" ^ sp ^ "/" ^ sp then spec_bad := (Printf.sprintf "op%d:Q spec=%s" i sp) :: !spec_bad;
@@ -190,13 +201,13 @@ let eval inp obs =
          if !qi = None then "pPANIC" else "p1")
     | ["G"] ->
       (match !qi with None -> "gPANIC" | Some st ->
-       (match qi_medians ws q st with
+       (match qi_medians !ws !q st with
         | None -> qi := None; "gPANIC"
         | Some (meds, st') ->
           qi := Some st';
           if not !mal then begin
             let sm = spec_matrix () in
-            let smeds = List.map (fun row -> median_spec ws q row) sm in
+            let smeds = List.map (fun row -> median_spec !ws !q row) sm in
             let sp = "g" ^ csv ntok smeds ^ ":" ^ csv (fun row -> join "." (List.map ntok row)) sm ^ ":" ^ csv ntok (spec_self ()) in
             if iobs <> sp then spec_bad := (Printf.sprintf "op%d:G spec=%s" i sp) :: !spec_bad;
             if smeds <> meds then mspec_bad := (Printf.sprintf "op%d:G" i) :: !mspec_bad
@@ -208,12 +219,12 @@ let eval inp obs =
        | None, _ -> "ts"
        | _, None -> "tPANIC"
        | Some _, Some st ->
-         (match qi_metric diff ws q st (merged !s idn) with
+         (match qi_metric diff !ws !q st (merged !s idn) with
           | None -> qi := None; "tPANIC"
           | Some (m, st') ->
             qi := Some st';
             if not !mal then begin
-              let smeds = List.map (fun row -> median_spec ws q row) (spec_matrix ()) in
+              let smeds = List.map (fun row -> median_spec !ws !q row) (spec_matrix ()) in
               let sp = metric_spec diff smeds (spec_self ()) (spec_clock idn) nvn in
               if iobs <> "t" ^ ntok sp then spec_bad := (Printf.sprintf "op%d:T spec=%s" i (ntok sp)) :: !spec_bad;
               if sp <> m then mspec_bad := (Printf.sprintf "op%d:T" i) :: !mspec_bad
